@@ -19,10 +19,13 @@ def replay_one(args):
         eb = sb.build("b", [S[2], S[3]], ["s3", "s4"], 5, True)
         if not (ea.get("ok") and eb.get("ok")):
             return {"ok": False, "why": "initial build failed", "step": -1}
+        em = sb.merge(["a", "b"], "m")
+        if not em.get("ok"):
+            return {"ok": False, "why": "initial merge failed", "step": -1, "event": em}
         for si, h in enumerate(beh["hist"]):
             op, f = h["op"], h["file"]
             if op["do"] == "merge":
-                e = sb.merge(op["ins"], "m")
+                e = sb.merge(op["ins"], "n")
             elif op["do"] == "delete":
                 e = sb.delete(f, op["names"], via="file" if (idx + si) % 2 else "args")
             else:
